@@ -61,5 +61,26 @@ CHECKS = {
   technique='model-based property testing with a stepped (Subject-driven) source and a timed reference model',
   text='Every output of generated pipelines (nested windows, groups, tees; plain dual-mode pipelines with early completion) is stamped with the source push during which it was emitted; per push the multiset of outputs must equal that of the reference model, so nothing is early and nothing is late. Exploration.',
   note='Trusts the reference model (vf/model.py, cross-validated against the code on >10^4 pipelines) and that rxsci is synchronous; order within one push is not judged here.'),
+ 'C16': dict(
+  category='fault_enumeration',
+  technique='round-trip property testing with reference decoders + exhaustive enumeration of truncation points',
+  text='Generated chunk lists (0..300 KB, zeros/text/noise) are compressed by the real gzip/zstd compress(), the compressed bytes re-chunked (as emitted, generated cuts incl. empty chunks anywhere, byte by byte) and decompressed: output == input, completes, and gzip.decompress / zstandard accept the bytes as a standalone file. Every proper prefix of compressed streams <= 2 KB (fed whole / in halves / byte-wise) must end in on_error without completion and with a prefix of the original emitted.',
+  note='Empty chunks are legal elements of a re-chunking; non-empty trailing garbage is outside the property.'),
+ 'C17': dict(
+  technique='round-trip property testing over byte-level re-chunkings + exhaustive 2-cut chunkings of short texts',
+  text='String lists over the full Unicode range encoded with rs.data.encode (utf-8/16/32, latin-1, utf-8-sig, utf-16-le, utf-32-be), re-chunked at generated byte positions (inside multi-byte sequences and the BOM, empty chunks) and decoded: text equal to the concatenation; bytes equal to str.encode of the concatenation (BOM once).',
+  note='No lone surrogates; same encoding on both sides.'),
+ 'C18': dict(
+  technique='round-trip property testing (in memory and through files)',
+  text='Typed rows (ints of any size, every finite double as printed by str(), bools, strings weighted towards separator/quote/escape/blank characters) through csv.dump -> line.unframe -> csv.load and dump_to_file -> load_from_file (files crossing 64 KiB), for 5 separators x 2 escape characters x 1..8 columns: every field equal incl. the sign bit of floats.',
+  note='No newline in strings (no CR through text-mode files); header=True; utf-8 files.'),
+ 'C19': dict(
+  technique='round-trip property testing through files (compression None/gzip/zstd) and in memory',
+  text='Lists of JSON dicts (nested, 64-bit ints, finite floats, None inside, arbitrary Unicode incl. newlines/quotes/U+2028/astral) written by dump_to_file and read by load_from_file for each compression, 0 objects .. several 64 KiB chunks with multi-byte padding (chunk boundaries cut characters), path and custom open_obj; type-strict equality (1 vs 1.0 vs True).',
+  note='Items are dicts with str keys; orjson limits (no NaN, no lone surrogates).'),
+ 'C20': dict(
+  technique='round-trip property testing with an independent reader (pyarrow.parquet.read_table) + enumeration of boundary row counts',
+  text='Row counts 0..5000 x dump batch sizes 1..2000 x load batch sizes x row_group_size x NONE/snappy/gzip/zstd x schemas (int64, string, float64, struct, list<int64>) x path/file object: the file read by pyarrow and by load_from_file must hold exactly the written rows once each in order; all row counts 0..2b+1 enumerated for small b.',
+  note='pyarrow is the trusted independent reader.'),
 }
 NOT_APPLICABLE = {}
